@@ -289,3 +289,40 @@ for nm, d, t, tier in [("d2_f64", 2, "f64", "quick"), ("d3_f64", 3, "f64", "thor
             "Ok => every coordinate in [0, period), in-range unchanged, idempotent; invalid configuration => point untouched",
       mutant=dict(file=GTM, old="Some(w) if w >= period => T::zero(),", new="Some(w) if w > period => T::zero(),",
                   desc="the half-open guard `>=` becomes `>`") if nm == "d2_f64" else None)
+
+# ======================================================================================
+# C02 / C05 / C15 : validator plumbing in src/core/triangulation.rs (K-callee)
+# ======================================================================================
+_TRI_IMPL2 = None
+_ASSUME_VALIDATORS = ("callee contracts assumed (stubs): each sub-validator returns any verdict and changes no state; "
+                      "bodies of the sub-validators (storage code) are NOT verified")
+K("tri.validate_after_insertion", ["C02", "C19"], TRI, "triangulation.rs", "validate_after_insertion_contract", "K-callee",
+  [fn(TRI, "validate_after_insertion")], timeout=300,
+  obligations=["bootstrap", "non-negotiable", "policy-full", "pseudo-hole", "verdict-full", "verdict-links", "err-origin"],
+  assumed=[_ASSUME_VALIDATORS, "ValidationPolicy::should_validate replaced by its Verus-proved table in the harness spec (dev profile: DebugOnly => true)"],
+  claim="Triangulation::validate_after_insertion for every policy x guarantee x suspicion vector x cell count: with cells and a PL guarantee exactly one of "
+        "{Level 3, required-link validation} runs and its verdict is returned; should_validate => Level 3; Pseudomanifold && !should_validate => Ok unchecked (pinned)",
+  mutant=dict(file=TRI, old="        if !should_validate && !requires_link_checks {", new="        if !should_validate {",
+              desc="required link checks skipped whenever the policy does not ask for validation"))
+K("tri.required_links", ["C02", "C05"], TRI, "triangulation.rs", "required_links_contract", "K-callee",
+  [fn(TRI, "validate_required_topology_links")], timeout=600,
+  obligations=["nothing-required", "conjunction", "all-consulted", "err-origin"], assumed=[_ASSUME_VALIDATORS],
+  claim="validate_required_topology_links: Ok <=> facet degree, closed boundary, ridge links, (Strict: vertex links), orientation all pass; none for Pseudomanifold / no cells",
+  mutant=dict(file=TRI, old="            validate_ridge_links(&self.tds).map_err(TriangulationValidationError::from)?;\n            true\n        } else {",
+              new="            true\n        } else {", desc="ridge-link check dropped from the PLManifold branch"))
+K("tri.level3", ["C05", "C15"], TRI, "triangulation.rs", "level3_conjunction_contract", "K-callee",
+  [fn(TRI, "is_valid", anchor=r"pub fn is_valid\(&self\) -> Result<\(\), TriangulationValidationError>")], timeout=1200,
+  obligations=["conjunction", "all-consulted", "err-origin"], assumed=[_ASSUME_VALIDATORS],
+  claim="Triangulation::is_valid == conjunction of its eight invariants incl. the Euler clause (chi == expected when known), guarantee-dependent link checks",
+  mutant=dict(file=TRI, old="        self.validate_no_isolated_vertices()?;\n\n        // 4. Euler", new="        // 4. Euler",
+              desc="isolated-vertex invariant dropped from Level 3"))
+K("tri.validate", ["C05"], TRI, "triangulation.rs", "validate_cumulative_contract", "K-callee",
+  [fn(TRI, "validate", anchor=r"pub fn validate\(&self\) -> Result<\(\), TriangulationValidationError>")], timeout=600,
+  obligations=["conjunction", "all-consulted", "err-origin"], assumed=[_ASSUME_VALIDATORS],
+  claim="Triangulation::validate == Tds::validate && is_valid && validate_at_completion",
+  mutant=dict(file=TRI, old="        self.is_valid()?;\n        self.validate_at_completion()", new="        self.is_valid()?;\n        Ok(())",
+              desc="completion-time vertex-link check dropped from cumulative validation"))
+K("tri.validate_at_completion", ["C05", "C02"], TRI, "triangulation.rs", "validate_at_completion_contract", "K-callee",
+  [fn(TRI, "validate_at_completion")], timeout=600,
+  obligations=["completion-links", "links-consulted", "completion-skip"], assumed=[_ASSUME_VALIDATORS],
+  claim="validate_at_completion: vertex-link validation decides iff guarantee in {PLManifold, Strict} and cells > 0")
